@@ -101,7 +101,8 @@ def _run_rename_twin(prop: str, source: Source, base_idents: List[str]) -> Dict[
     except AnalysisError as exc:
         return {"name": RENAME_TWIN, "kind": "twin", "status": "analysis-error", "detail": str(exc)[:200]}
     # construct keys contain statement text, which the renaming changes: compare per rule
-    base_rules = sorted(ident.split("|")[0] for ident in base_idents)
+    ran = {rule.rule_id for rule in ctx.rules}  # thorough-only rules do not run in variants
+    base_rules = sorted(r for r in (ident.split("|")[0] for ident in base_idents) if r in ran)
     new_rules = sorted(f.rule for f in ctx.findings())
     status = "silent" if base_rules == new_rules else "false-alarm"
     return {"name": RENAME_TWIN, "kind": "twin", "status": status, "rules": sorted(set(new_rules) - set(base_rules)), "detail": []}
